@@ -485,6 +485,17 @@ func (vc *FnVC) applyModItem(m modItem, pos token.Pos) {
 			vc.obAssert("frame", "frame@callee-modifies "+m.text, "callee may write any object of the type: caller must declare the same", "false", pos)
 		}
 		vc.heapHavoc(m.comp, srt)
+	case "anyelems":
+		allowed := false
+		for _, mine := range vc.modItems {
+			if mine.kind == "anyelems" && mine.comp == m.comp {
+				allowed = true
+			}
+		}
+		if !allowed && vc.fc != nil {
+			vc.obAssert("frame", "frame@callee-modifies "+m.text, "callee may write any array of the element type: caller must declare the same", "false", pos)
+		}
+		vc.heapHavoc(m.comp, srt)
 	case "field":
 		vc.checkWrite(m.comp, m.ref, "", "callee-modifies "+m.text, pos)
 		elemSort := strings.TrimSuffix(strings.TrimPrefix(srt, "(Array Int "), ")")
@@ -543,6 +554,8 @@ func (vc *FnVC) checkRangeWrite(m modItem, pos token.Pos) {
 			continue
 		}
 		switch mine.kind {
+		case "anyelems":
+			return
 		case "elems":
 			alts = append(alts, fmt.Sprintf("(= %s %s)", m.ref, mine.ref))
 		case "range":
@@ -878,6 +891,8 @@ func (vc *FnVC) appendBuiltin(in *ssa.Call) {
 				continue
 			}
 			switch mine.kind {
+			case "anyelems":
+				alts = append(alts, "true")
 			case "elems":
 				alts = append(alts, fmt.Sprintf("(= %s %s)", arr, mine.ref))
 			case "range":
